@@ -104,6 +104,13 @@ FUNCS = [
     dict(name='EUI_ipv6', tie='NV.Tie.eui_ipv6', prop='C08', file='eui/__init__.py', cls='EUI', func='ipv6', kind='eui', params=[('prefix', 'int')], ret='ctor2'),
     dict(name='EUI_ipv6_link_local', tie='NV.Tie.eui_ipv6_link_local', prop='C08', file='eui/__init__.py', cls='EUI', func='ipv6_link_local', kind='eui', params=[], ret='ctor2'),
     dict(name='IAB_split_iab_mac', tie='NV.Tie.iab_split', prop='C08', file='eui/__init__.py', cls='IAB', func='split_iab_mac', kind=None, params=[('eui_int', 'int'), ('strict', 'bool')], ret='tuple2'),
+    # netaddr.strategy: the generic word codecs (lists of ints; `for` loops become recursion on the count / the list)
+    dict(name='valid_words', tie='NV.Tie.valid_words_eq', prop='C15', file='strategy/__init__.py', cls=None, func='valid_words', kind=None,
+         params=[('words', 'ilist'), ('word_size', 'int'), ('num_words', 'int')], ret='bool'),
+    dict(name='int_to_words', tie='NV.Tie.int_to_words_eq', prop='C15', file='strategy/__init__.py', cls=None, func='int_to_words', kind=None,
+         params=[('int_val', 'int'), ('word_size', 'int'), ('num_words', 'int')], ret='ilist'),
+    dict(name='words_to_int', tie='NV.Tie.words_to_int_eq', prop='C15', file='strategy/__init__.py', cls=None, func='words_to_int', kind=None,
+         params=[('words', 'ilist'), ('word_size', 'int'), ('num_words', 'int')], ret='int'),
     # the halving loop of cidr_partition (arguments already IPNetwork objects: `target = IPNetwork(target)` is the identity)
     dict(name='cidr_partition', tie='NV.Tie.cidr_partition_eq', prop='C09', file='ip/__init__.py', cls=None, func='cidr_partition', kind=None,
          params=[('target', 'obj:net'), ('exclude', 'obj:net')], ret='lists3', fuel='(width exclude_ver + 1)'),
@@ -149,6 +156,7 @@ class Ctx:
         self.objs = {p: t[4:] for p, t in spec['params'] if t.startswith('obj:')}
         self.opts = set()           # local variables holding Optional constructor results
         self.vartypes = {}          # local variable -> 'int' | 'list3'
+        self.vartypes.update({p: 'ilist' for p, t in spec['params'] if t == 'ilist'})
         self.objvars = {}           # local variable holding a constructed object -> names of its tuple components
         self.fn = None              # the FunctionDef being translated
         self.stored = 0             # > 0 while translating statements that follow a store to a field of self
@@ -340,6 +348,9 @@ def ival(ctx, e):
                     raise Untranslatable('raising member inside an expression')
                 return '%s.1' % t
         return ival(ctx, a)
+    if isinstance(e, ast.Call) and isinstance(e.func, ast.Name) and e.func.id == 'len' and len(e.args) == 1 \
+            and isinstance(e.args[0], ast.Name) and ctx.vartypes.get(e.args[0].id) == 'ilist':
+        return '((%s.length : Nat) : Int)' % nm(e.args[0].id)
     if isinstance(e, ast.IfExp):
         return '(if %s then %s else %s)' % (prop(ctx, e.test), ival(ctx, e.body), ival(ctx, e.orelse))
     raise Untranslatable('integer expression %s' % ast.dump(e)[:80])
@@ -354,6 +365,10 @@ def static_test(ctx, e):
             and isinstance(e.args[0], ast.Name) and ctx.params.get(e.args[0].id) == 'int' \
             and isinstance(e.args[1], ast.Name) and e.args[1].id in ('_int_type', 'int'):
         return True      # the parameter is declared an int: this translation is the int-argument case
+    if isinstance(e, ast.Call) and isinstance(e.func, ast.Name) and e.func.id == 'hasattr' and len(e.args) == 2 \
+            and isinstance(e.args[0], ast.Name) and ctx.vartypes.get(e.args[0].id) == 'ilist' \
+            and isinstance(e.args[1], ast.Constant) and e.args[1].value == '__iter__':
+        return True      # the parameter is declared a list / tuple of ints
     if isinstance(e, ast.UnaryOp) and isinstance(e.op, ast.Not):
         st = static_test(ctx, e.operand)
         return None if st is None else (not st)
@@ -394,6 +409,19 @@ def prop(ctx, e):
         s = lookup_member(ctx, e.func.attr)
         if s is not None and s['ret'] == 'bool' and not s.get('_raises'):
             return '(%s = true)' % call_member(ctx, s, [])[0]
+    if isinstance(e, ast.Call) and isinstance(e.func, ast.Name) and not e.keywords:
+        for sp in ctx.table.values():
+            if sp['cls'] is None and sp['func'] == e.func.id and sp['ret'] == 'bool' and not sp.get('_raises') \
+                    and len(sp['params']) == len(e.args):
+                args = []
+                for a, (pn, pt) in zip(e.args, sp['params']):
+                    if pt == 'ilist':
+                        if not (isinstance(a, ast.Name) and ctx.vartypes.get(a.id) == 'ilist'):
+                            raise Untranslatable('list argument')
+                        args.append(nm(a.id))
+                    else:
+                        args.append(ival(ctx, a))
+                return '(%s %s = true)' % (sp['name'], ' '.join(args))
     # int truthiness
     try:
         return '(%s ≠ 0)' % ival(ctx, e)
@@ -411,6 +439,8 @@ def ret_type(spec):
         base = ' × '.join('Int' for _ in range(int(r[5:])))
     if r == 'lists3':
         base = 'List (Int × Int × Int) × List (Int × Int × Int) × List (Int × Int × Int)'
+    if r == 'ilist':
+        base = 'List Int'
     if r == 'self':
         base = ' × '.join('Int' for _ in KINDS[spec['kind']][1])
     return base
@@ -452,6 +482,16 @@ def lval(ctx, e):
 
 def retval(ctx, e):
     r = ctx.spec['ret']
+    if r == 'ilist':
+        # tuple(reversed(words)) / list(reversed(words)) / words
+        if isinstance(e, ast.Call) and isinstance(e.func, ast.Name) and e.func.id in ('tuple', 'list') and len(e.args) == 1:
+            e = e.args[0]
+        if isinstance(e, ast.Call) and isinstance(e.func, ast.Name) and e.func.id == 'reversed' and len(e.args) == 1 \
+                and isinstance(e.args[0], ast.Name) and ctx.vartypes.get(e.args[0].id) == 'ilist':
+            return '(%s).reverse' % nm(e.args[0].id)
+        if isinstance(e, ast.Name) and ctx.vartypes.get(e.id) == 'ilist':
+            return nm(e.id)
+        raise Untranslatable('return of %s' % ast.dump(e)[:60])
     if r == 'lists3':
         if isinstance(e, ast.Tuple) and len(e.elts) == 3:
             return '(' + ', '.join(lval(ctx, x) for x in e.elts) + ')'
@@ -516,7 +556,7 @@ def block(ctx, stmts, ind, loop=None):
     pad = '  ' * ind
     if not stmts:
         if loop is not None:
-            return '%s%s fuel %s' % (pad, loop[0], ' '.join(loop[1]))
+            return '%s%s %s' % (pad, loop[0], ' '.join(loop[1]))
         if ctx.spec['ret'] in ('opt_ctor2', 'opt_ctor3'):
             return pad + wrap_ok(ctx, 'none')
         if ctx.spec.get('end') is not None:
@@ -579,6 +619,9 @@ def block(ctx, stmts, ind, loop=None):
         if v in ctx.objs and is_ctor_call(ctx, val) and len(val.args) == 1 and isinstance(val.args[0], ast.Name) \
                 and val.args[0].id == v and not val.keywords:
             return block(ctx, rest, ind, loop)
+        if isinstance(val, ast.List) and not val.elts and ctx.spec['ret'] == 'ilist':
+            ctx.vartypes[v] = 'ilist'
+            return '%slet %s : List Int := []\n%s' % (pad, nm(v), block(ctx, rest, ind, loop))
         if isinstance(val, ast.List):
             ctx.vartypes[v] = 'list3'
             return '%slet %s : List (Int × Int × Int) := %s\n%s' % (pad, v, lval(ctx, val), block(ctx, rest, ind, loop))
@@ -618,6 +661,13 @@ def block(ctx, stmts, ind, loop=None):
             and ctx.vartypes.get(s.value.func.value.id) == 'list3' and len(s.value.args) == 1:
         v = s.value.func.value.id
         return '%slet %s : List (Int × Int × Int) := %s ++ [%s]\n%s' % (pad, v, v, obj_tuple(ctx, s.value.args[0]), block(ctx, rest, ind, loop))
+    if isinstance(s, ast.Expr) and isinstance(s.value, ast.Call) and isinstance(s.value.func, ast.Attribute) \
+            and s.value.func.attr == 'append' and isinstance(s.value.func.value, ast.Name) \
+            and ctx.vartypes.get(s.value.func.value.id) == 'ilist' and len(s.value.args) == 1:
+        v = nm(s.value.func.value.id)
+        return '%slet %s : List Int := %s ++ [%s]\n%s' % (pad, v, v, ival(ctx, s.value.args[0]), block(ctx, rest, ind, loop))
+    if isinstance(s, ast.For):
+        return for_loop(ctx, s, rest, ind, loop)
     if isinstance(s, ast.If):
         st = static_test(ctx, s.test)
         if st is not None:
@@ -633,26 +683,81 @@ def block(ctx, stmts, ind, loop=None):
             raise Untranslatable('while loop without a fuel term')
         ctx.nloops += 1
         lname = '%s_loop%d' % (ctx.spec['name'], ctx.nloops)
-        before = [v for v in assigned_vars([st for st in ast.walk(ctx.fn) if isinstance(st, ast.stmt) and st is not ctx.fn
-                                            and getattr(st, 'lineno', 0) < s.lineno
-                                            and not any(st is x or st in ast.walk(x) for x in [s])])
-                  if v in ctx.vartypes]
+        before = locals_before(ctx, s)
         inbody = [v for v in assigned_vars(s.body) if v in before]
         lv = inbody + [v for v in before if v not in inbody]
         # loop variables: the locals defined before the loop - first the ones the body assigns, then the others
         selfp = ' '.join('(%s : %s)' % (f, 'Nat' if f == 'ver' else 'Int') for f in KINDS[ctx.kind][0])
-        par = ' '.join('(%s : %s)' % (v, 'List (Int × Int × Int)' if ctx.vartypes.get(v) == 'list3' else 'Int') for v in lv)
+        par = ' '.join('(%s : %s)' % (nm(v), VT[ctx.vartypes.get(v, 'int')]) for v in lv)
         extra = ' '.join(param_binders(ctx.spec))
         rt = ret_type(ctx.spec)
         rt = 'R (%s)' % rt if ctx.spec['_raises'] else rt
         call_vars = KINDS[ctx.kind][0] + param_names(ctx.spec) + lv
         after = block(ctx, rest, 2, loop)
-        body = block(ctx, list(s.body), 3, (lname, call_vars, rest, loop))
+        body = block(ctx, list(s.body), 3, (lname + ' fuel', call_vars, rest, loop))
         ctx.loops.append(
             'def %s (fuel0 : Nat) %s %s %s : %s :=\n  match fuel0 with\n  | 0 =>\n%s\n  | fuel + 1 =>\n    if %s then\n%s\n    else\n%s\n'
             % (lname, selfp, extra, par, rt, after, prop(ctx, s.test), body, block(ctx, rest, 3, loop)))
         return '%s%s (%s + 1) %s' % (pad, lname, fuel, ' '.join(call_vars))
     raise Untranslatable('statement %s' % type(s).__name__)
+
+
+VT = {'int': 'Int', 'list3': 'List (Int × Int × Int)', 'ilist': 'List Int'}
+
+
+def locals_before(ctx, s):
+    return [v for v in assigned_vars([st for st in ast.walk(ctx.fn) if isinstance(st, ast.stmt) and st is not ctx.fn
+                                      and getattr(st, 'lineno', 0) < s.lineno])
+            if v in ctx.vartypes and v not in ctx.params]
+
+
+def for_loop(ctx, s, rest, ind, loop):
+    """`for _ in range(E)`, `for x in L`, `for i, x in enumerate(reversed(L))` (L a list of ints): an auxiliary
+    definition by recursion on the count / on the list; falling off the body continues with the next item"""
+    if s.orelse:
+        raise Untranslatable('for-else')
+    pad = '  ' * ind
+    it = s.iter
+    ctx.nloops += 1
+    lname = '%s_loop%d' % (ctx.spec['name'], ctx.nloops)
+    before = locals_before(ctx, s)
+    inbody = [v for v in assigned_vars(s.body) if v in before]
+    lv = inbody + [v for v in before if v not in inbody]
+    selfp = ' '.join('(%s : %s)' % (f, 'Nat' if f == 'ver' else 'Int') for f in KINDS[ctx.kind][0])
+    extra = ' '.join(param_binders(ctx.spec))
+    par = ' '.join('(%s : %s)' % (nm(v), VT[ctx.vartypes.get(v, 'int')]) for v in lv)
+    rt = ret_type(ctx.spec)
+    rt = 'R (%s)' % rt if ctx.spec['_raises'] else rt
+    call_vars = KINDS[ctx.kind][0] + param_names(ctx.spec) + [nm(v) for v in lv]
+    after = block(ctx, rest, 2, loop)
+
+    def is_list(e):
+        return isinstance(e, ast.Name) and ctx.vartypes.get(e.id) == 'ilist'
+    if isinstance(it, ast.Call) and isinstance(it.func, ast.Name) and it.func.id in ('range', '_range') and len(it.args) == 1 \
+            and isinstance(s.target, ast.Name) and s.target.id == '_':
+        body = block(ctx, list(s.body), 2, (lname + ' cnt', call_vars, rest, loop))
+        ctx.loops.append('def %s (cnt0 : Nat) %s %s %s : %s :=\n  match cnt0 with\n  | 0 =>\n%s\n  | cnt + 1 =>\n%s\n'
+                         % (lname, selfp, extra, par, rt, after, body))
+        return '%s%s (%s).toNat %s' % (pad, lname, ival(ctx, it.args[0]), ' '.join(call_vars))
+    if is_list(it) and isinstance(s.target, ast.Name):
+        x = nm(s.target.id)
+        ctx.vartypes[s.target.id] = 'int'
+        body = block(ctx, list(s.body), 2, (lname + ' items', call_vars, rest, loop))
+        ctx.loops.append('def %s (items0 : List Int) %s %s %s : %s :=\n  match items0 with\n  | [] =>\n%s\n  | %s :: items =>\n%s\n'
+                         % (lname, selfp, extra, par, rt, after, x, body))
+        return '%s%s %s %s' % (pad, lname, nm(it.id), ' '.join(call_vars))
+    if isinstance(it, ast.Call) and isinstance(it.func, ast.Name) and it.func.id == 'enumerate' and len(it.args) == 1 \
+            and isinstance(it.args[0], ast.Call) and isinstance(it.args[0].func, ast.Name) and it.args[0].func.id == 'reversed' \
+            and len(it.args[0].args) == 1 and is_list(it.args[0].args[0]) \
+            and isinstance(s.target, ast.Tuple) and len(s.target.elts) == 2 and all(isinstance(t, ast.Name) for t in s.target.elts):
+        i, x = nm(s.target.elts[0].id), nm(s.target.elts[1].id)
+        ctx.vartypes[s.target.elts[0].id] = 'int'
+        ctx.vartypes[s.target.elts[1].id] = 'int'
+        body = block(ctx, list(s.body), 2, (lname + ' items (%s + 1)' % i, call_vars, rest, loop))
+        ctx.loops.append('def %s (items0 : List Int) (%s : Int) %s %s %s : %s :=\n  match items0 with\n  | [] =>\n%s\n  | %s :: items =>\n%s\n'
+                         % (lname, i, selfp, extra, par, rt, after, x, body))
+        return '%s%s (%s).reverse (0 : Int) %s' % (pad, lname, nm(it.args[0].args[0].id), ' '.join(call_vars))
+    raise Untranslatable('for loop over %s' % ast.dump(it)[:60])
 
 
 def has_raise(fn, ctx_table, spec):
@@ -667,6 +772,8 @@ def param_binders(spec):
     for p, t in spec['params']:
         if t.startswith('obj:'):
             out += ['(%s_%s : %s)' % (p, f, 'Nat' if f == 'ver' else 'Int') for f in OBJ_FIELDS[t[4:]]]
+        elif t == 'ilist':
+            out.append('(%s : List Int)' % nm(p))
         else:
             out.append('(%s : %s)' % (nm(p), 'Bool' if t == 'bool' else 'Int'))
     return out
